@@ -196,7 +196,7 @@ fn journal_image_len(count: usize) -> usize {
     (40 + count * 8).div_ceil(BLOCK) * BLOCK
 }
 
-fn journal_checksum(d: &[u8]) -> u32 {
+pub fn journal_checksum(d: &[u8]) -> u32 {
     let mut c = crc32c_fast(0, &d[..12]);
     c = crc32c_fast(c, &[0; 4]);
     c = crc32c_fast(c, &d[16..32]);
